@@ -304,6 +304,14 @@ def run_property(pid, tier, seed):
         extra = {}
         if tier == "thorough":
             extra = thorough_extras(wd, b, path, res, seed)
+            if not res.failures and not b.degraded:
+                from .mutants import selftest
+                pfids = set(t.split("::fn::")[0].split("::implicit#")[0].split("::closure")[0].split("::loop")[0].split("::ghost")[0].split("::prologue")[0]
+                            for t in all_tags(b) if set(tag_props(b, t)) & set(pclosure))
+                ms = selftest(limit=120, workers=10, seed=seed, fids=pfids)
+                ms["note"] = ("one-token mutants of the copied function texts, each verified on its own; survivors are equivalent mutants, dead "
+                              "branches under the preconditions, or contracts that do not pin the mutated detail - informational, no effect on the verdict")
+                extra["mutation_selftest"] = ms
         # ---- triage of failed obligations in functions Verus could ingest
         relevant = []
         arm_cache = {}
@@ -375,7 +383,11 @@ def run_property(pid, tier, seed):
                     failed_tags.append(fl.tag)
         # ---- bounded stand-ins for functions outside the verifier's reach (labelled bounded, never counted as proved)
         standins = []
-        for mode in props.get(pid, {}).get("bounded", []):
+        bmodes = list(props.get(pid, {}).get("bounded", []))
+        if tier == "thorough":
+            # deeper exploration: the replay sweeps that observe this property's functions on the real crate
+            bmodes += [m for m in PROP_MODES.get(pid, []) if m not in bmodes]
+        for mode in bmodes:
             from . import replay as R
             if rbin is None:
                 rbin, err = R.build_replay()
